@@ -37,7 +37,7 @@ def classOf : String → Bool
   | _ => false
 
 def nPrepares : String → Nat
-  | "ei" | "en" | "bp" | "ge" => 1
+  | "ei" | "en" | "bp" | "ge" | "br" => 1
   | "bq" => 2
   | _ => 0
 
